@@ -18,9 +18,9 @@ AcsOther == << <<Post, "urlB", 1>> >>                \* the other SP (sp2)
 SloOther == << <<Redirect, "sloB", 0>> >>
 
 Issuers == {"sp1", "sp2", "unknown"}
-Urls == {"absent", "url1", "url2", "url3", "urlB", "url1-case", "url1-slash", "url1-query", "url1-port", "unregistered"}
+Urls == {"absent", "url1", "url2", "url3", "urlB", "url1-case", "url1-slash", "url1-query", "url1-port", "url1-prefix", "url1-parent", "unregistered"}
 Indexes == {"absent", "1", "2", "9"}
-PBind == {"absent", Post, Redirect, Artifact, "bogus"}
+PBind == {"absent", Post, Redirect, Artifact, "PAOS", "bogus"}
 \* the server is long-lived: prev is the authentication request it answered just before (none, sp1 naming url1, sp2 naming
 \* urlB).  Where it answers now is a function of the present request and the requester's metadata alone.
 Prev == {"none", "sp1_url1", "sp2_urlB"}
